@@ -63,7 +63,7 @@ pub enum Op {
     Write(W),
     /// `CHECKPOINT 'cpN'` (N = running number)
     Checkpoint,
-    /// `ROLLBACK TO` a retained checkpoint chosen by the index
+    /// `ROLLBACK TO` a retained checkpoint chosen by the index (by name; by id when the index is odd)
     Rollback(u16),
     /// `ROLLBACK TO` a name that is not retained (an evicted checkpoint if there is one, else a
     /// name never created): must fail and change nothing
@@ -135,12 +135,12 @@ fn write(gv_only: bool) -> BoxedStrategy<W> {
     }
 }
 
-fn op(gv_only: bool, cp_weight: u32, rb_weight: u32) -> impl Strategy<Value = Op> {
+fn op(gv_only: bool, cp_weight: u32, rb_weight: u32, gone_weight: u32) -> impl Strategy<Value = Op> {
     prop_oneof![
         40 => write(gv_only).prop_map(Op::Write),
         cp_weight => Just(Op::Checkpoint),
         rb_weight => any::<u16>().prop_map(Op::Rollback),
-        1 => any::<u8>().prop_map(Op::RollbackGone),
+        gone_weight => any::<u8>().prop_map(Op::RollbackGone),
     ]
 }
 
@@ -152,7 +152,7 @@ pub fn rollback_strategy(t: Tier) -> impl Strategy<Value = Case> {
     let (nb, no) = t.pick((10usize, 28usize), (14usize, 40usize));
     (2u8..=4, prop::bool::weighted(GV_ONLY_SHARE), prop::bool::weighted(0.85), prop::bool::weighted(0.5), any::<u16>()).prop_flat_map(
         move |(max_cp, gv_only, tables_first, sweep, last)| {
-            (prop::collection::vec(write(gv_only), 0..nb), prop::collection::vec(op(gv_only, 5, 5), 1..no)).prop_map(move |(before, ops)| Case {
+            (prop::collection::vec(write(gv_only), 0..nb), prop::collection::vec(op(gv_only, 5, 5, 1), 1..no)).prop_map(move |(before, ops)| Case {
                 max_cp,
                 gv_only,
                 spaced: false,
@@ -169,7 +169,7 @@ pub fn rollback_strategy(t: Tier) -> impl Strategy<Value = Case> {
 /// Part `retention`: few writes, more checkpoints than the limit, every CHECKPOINT in its own second.
 pub fn retention_strategy(_t: Tier) -> impl Strategy<Value = Case> {
     (2u8..=3, prop::bool::weighted(GV_ONLY_SHARE), prop::bool::weighted(0.7), any::<u16>()).prop_flat_map(|(max_cp, gv_only, sweep, last)| {
-        (prop::collection::vec(write(gv_only), 0..5), prop::collection::vec(op(gv_only, 14, 4), 6..16)).prop_map(move |(before, ops)| Case {
+        (prop::collection::vec(write(gv_only), 0..5), prop::collection::vec(op(gv_only, 18, 2, 3), 6..16)).prop_map(move |(before, ops)| Case {
             max_cp,
             gv_only,
             spaced: true,
@@ -180,4 +180,16 @@ pub fn retention_strategy(_t: Tier) -> impl Strategy<Value = Case> {
             last,
         })
     })
+}
+
+/// Part `burst`: more checkpoints than the limit created back to back (within one wall-clock second).
+#[derive(Clone, Debug, Serialize, Deserialize)]
+pub struct Burst {
+    pub max_cp: u8,
+    /// checkpoints created beyond the limit
+    pub extra: u8,
+}
+
+pub fn burst_strategy(_t: Tier) -> impl Strategy<Value = Burst> {
+    (2u8..=4, 1u8..=2).prop_map(|(max_cp, extra)| Burst { max_cp, extra })
 }
